@@ -2,6 +2,8 @@
 //! one answer line per operation line (DESIGN.md appendix B).
 mod util;
 mod ops_pure;
+#[macro_use]
+mod ops_img;
 
 use std::cell::RefCell;
 use std::io::{self, BufRead, Write};
@@ -21,6 +23,15 @@ fn dispatch(st: &mut State, line: &str) -> String {
 		"strings" => ops_pure::strings(rest),
 		"relocs_raw" => ops_pure::relocs_raw(rest),
 		"relocs_build" => ops_pure::relocs_build(rest),
+		"img" => ops_img::img(st, rest),
+		"from_bytes" => ops_img::from_bytes(st, rest),
+		"hdr" => ops_img::hdr(st, rest),
+		"hdrw" => ops_img::hdrw(st, rest),
+		"r2f" | "f2r" | "r2v" | "v2r" => ops_img::addr(st, fam, rest),
+		"slice" => ops_img::slice(st, rest),
+		"read" => ops_img::read(st, rest),
+		"secbytes" => ops_img::secbytes(st, rest),
+		"byrva" | "byname" => ops_img::bysec(st, fam, rest),
 		_ => "bad-op".to_string(),
 	}
 }
